@@ -40,6 +40,8 @@ type Case struct {
 
 const model = "vm-c19"
 
+var urlSeq int64
+
 func getRig(c Case) (*rig.Rig, error) {
 	return rig.Get("c19/"+c.Engine+"/"+c.Balancer, stack.Options{Engine: c.Engine, Balancer: c.Balancer, Mutate: func(cfg *config.Config) {
 		cfg.Proxy.ReadTimeout = readTimeout
@@ -152,7 +154,9 @@ func runCase(c Case) []ev.Violation {
 		if o == "refuse" {
 			be = -1
 		}
-		eps = append(eps, rig.EP{Backend: be, Type: typ, Priority: 100})
+		// a fresh base path (dropped when forwarding, preserve_path is off) gives every case endpoints the
+		// collector has never seen, so the first concurrent burst also exercises the creation of their records
+		eps = append(eps, rig.EP{Backend: be, Type: typ, Priority: 100, BasePath: fmt.Sprintf("/u%d", atomic.AddInt64(&urlSeq, 1))})
 	}
 	_, urls, err := r.Setup(eps)
 	if err != nil {
